@@ -924,11 +924,22 @@ fn rich_old(i: usize, reload: &str) -> String {
         1 => format!(
             "(defsrc a s d f g h j k l ;)\n(defvirtualkeys vk1 x vk2 y)\n(deflayer base mlft {reload} (mwheel-up 50 120) (movemouse-up 5 1) (unmod 5) (movemouse-speed 200) (on-idle 300 tap-vkey vk1) (hold-for-duration 400 vk2) (dynamic-macro-record 1) (dynamic-macro-play 1))\n"
         ),
-        _ => format!(
+        2 => format!(
             "(defcfg sequence-timeout 2000)\n(defsrc a s d f g h j k l ;)\n(defvirtualkeys sq z)\n(defseq sq (1 2))\n(deflayer base 1 {reload} 2 sldr rpt dynamic-macro-record-stop 3 (unshift 4) (on-press press-vkey sq) (on-press release-vkey sq))\n"
+        ),
+        // zippychord: process-global state that a reload into a configuration without defzippy must clear
+        _ => format!(
+            "(defsrc a s d f g h j k l ;)\n(deflayer base a {reload} d f g h j k l ;)\n(defzippy {})\n",
+            ZIPPY_PATH.with(|z| z.borrow().clone())
         ),
     }
 }
+
+thread_local! {
+    static ZIPPY_PATH: std::cell::RefCell<String> = std::cell::RefCell::new(String::new());
+}
+/// two-key chords over most pairs of the ten keys, so that a random continuation types some of them
+const ZIPPY_DICT: &str = "df\tday\ngh\thello\njk\tjoke\ndg\tdog\nfh\tfish\nad\tadd\nkl\tkeel\nhj\thaj\nfg\tfog\nal\tall\n";
 const N_NEW: usize = 3;
 /// valid new configurations (they use overrides, sequences, virtual keys, tap-hold, one-shot so that a
 /// field forgotten by `do_live_reload` shows in the comparison with a fresh instance)
@@ -977,10 +988,12 @@ fn scenario(h: usize) -> Scen {
         18 => Scen { old: 2, before: vec![P(K_F), T(3), R(K_F), T(3), P(K_A), T(3), R(K_A), T(3)], after: vec![T(5)] }, // sequence mode active
         19 => Scen { old: 2, before: vec![P(K_K), T(10)], after: vec![T(1100), R(K_K), T(5)] },                  // unshift held
         20 => Scen { old: 2, before: vec![P(K_L), T(3), R(K_L), T(5)], after: vec![T(1100), P(K_SC), T(2), R(K_SC), T(5)] }, // virtual key left pressed, released 1.1 s after the request
-        _ => Scen { old: 2, before: vec![P(K_D), T(3), R(K_D), T(3)], after: vec![T(5)] },                       // a key typed before (rpt)
+        21 => Scen { old: 2, before: vec![P(K_D), T(3), R(K_D), T(3)], after: vec![T(5)] },                      // a key typed before (rpt)
+        22 => Scen { old: 3, before: vec![T(5)], after: vec![T(5)] },                                            // zippychord dictionary loaded
+        _ => Scen { old: 3, before: vec![P(K_D), T(5), P(K_F), T(20), R(K_D), R(K_F), T(10)], after: vec![T(5)] }, // a chord typed before
     }
 }
-pub const N_SCEN: usize = 22;
+pub const N_SCEN: usize = 24;
 
 fn rcode(k: usize) -> u16 {
     osc(RKEYS[k])
@@ -1106,6 +1119,9 @@ fn run_r(hist: usize, kind: &str, newi: usize, seed: u64) -> (String, bool) {
     let cont = continuation(seed);
     let td = TmpDir::new();
     let paths = vec![td.path(0)];
+    let zp = td.path(9);
+    write_text(&zp, ZIPPY_DICT);
+    ZIPPY_PATH.with(|z| *z.borrow_mut() = zp.to_string_lossy().to_string());
     // ---- run A: the reload is requested
     write_text(&paths[0], &rich_old(sc.old, "lrld"));
     let k = match new_kanata(&paths) {
